@@ -67,6 +67,12 @@ def obligations(ctx, tier):
                 out += core.g_row(K, PROP, inh(A, m), reps)
             # ---- sign handling / error-kind mapping of the string parsers around the parser core
             out += sign_rows(K, A)
+            # ---- no content-independent rejection (zero-padded numerals): information-flow rule T
+            for m in ("from_str_radix", "parse_bytes", "from_radix_be", "from_radix_le"):
+                out.append(core.t_row(K, PROP, inh(A, m)))
+            out.append(core.t_row(K, PROP, tr(A, "core::str::FromStr", [], "from_str")))
+            if not sg:
+                out.append(core.t_row(K, PROP, inh(A, "from_buf_radix_internal"), soft=True))
             # ---- trait forwarding
             out.append(core.f_row(K, PROP, tr(A, "core::str::FromStr", [], "from_str"), call(inh(A, "from_str_radix"), P(0), lit("u32", 10))))
             # ---- panic effects
